@@ -43,6 +43,7 @@
 #include <math.h>
 
 #include "cobyla.h"
+#include "nlopt-verif.h"
 
 /* SGJ, 2008: modified COBYLA code to take explicit account of bound
    constraints.  Since bound constraints are linear, these should
@@ -100,6 +101,7 @@ static int func_wrap(int ni, int mi, double *x, double *f, double *con,
 	  else xtmp[j] = x[j];
      }
      nlopt_unscale(n, s->scale, xtmp, xtmp);
+     NLOPT_VERIF_SITE(102, n, xtmp);
      /* multiplying by the scale can round a clamped coordinate just
 	outside the original bounds again */
      for (j = 0; j < n; ++j) {
